@@ -110,3 +110,27 @@ Proof. exact (accepted_values_safe C07_linebreaks_rejected). Qed.
 (* OmenScorer decodes IP.level / CP.level with the ruleset encoding *)
 Theorem C07_omen_scorer_reads_ruleset_encoding : omen_scorer_uses_ruleset_encoding = true.
 Proof. reflexivity. Qed.
+
+(* ---------------------------------------------------------------- translator tie (second tie to the source)
+
+   py_check_valid (gen/Reader_gen.v) is the line-by-line image of check_valid in
+   lib_trainer/trainer_file_input.py, written on every run by harness/translate_reader.py;
+   the side condition above and its lifting, restated over the translated function itself *)
+From Pcfg Require Import ReaderRt ReaderGenProofs ReaderGenFacts.
+From PcfgGen Require Import Reader_gen.
+
+Theorem C07_source_check_valid_is_model : forall p, py_check_valid p = accepted p.
+Proof. exact py_check_valid_is_model. Qed.
+
+(* no password the translated check_valid accepts holds TAB or a code point str.splitlines / the codecs line
+   iteration split on *)
+Theorem C07_source_linebreaks_rejected :
+  forall c, In c (TAB :: py_linebreaks) -> forall p, In c p -> py_check_valid p = false.
+Proof. exact (source_linebreaks_rejected C07_linebreaks_rejected). Qed.
+
+Theorem C07_source_accepted_values_safe :
+  forall p pre s post, py_check_valid p = true -> p = (pre ++ s ++ post)%list -> safe s = true.
+Proof. exact (source_accepted_values_safe C07_linebreaks_rejected). Qed.
+
+Print Assumptions C07_source_check_valid_is_model.
+Print Assumptions C07_source_linebreaks_rejected.
